@@ -65,7 +65,7 @@ def num(tok):
     tok = tok.strip().replace("_", "")
     tok = re.sub(r"(u8|u16|u32|u64|usize|i64|i32)$", "", tok)
     # simple products / sums like 64 * 1024 * 1024 or 1 + 8
-    if re.fullmatch(r"[0-9a-fA-Fxb+* ()]+", tok):
+    if re.fullmatch(r"[0-9a-fA-Fxb+*\- ()]+", tok):
         return int(eval(tok, {"__builtins__": {}}))
     raise ValueError(tok)
 
@@ -243,13 +243,211 @@ def wire():
     emit_nat("recordLenBytes", num(grab(fr_b, r"network_buffer\.len\(\)\s*<\s*([0-9]+)", "record length prefix size")))
 
 
-GENERATORS = [("Consts", [wire])]
+
+# ------------------------------------------------------------------------------------------
+# Protocol constants and tables (C04-C07, C19)
+# ------------------------------------------------------------------------------------------
+SOCKNAMES = ["PAIR", "PUB", "SUB", "REQ", "REP", "DEALER", "ROUTER", "PULL", "PUSH", "XPUB", "XSUB"]
+
+
+def const_env(rel, env):
+    """evaluate all `const NAME: ty = expr;` of a file in order, resolving earlier names"""
+    for m in re.finditer(r"\bconst\s+([A-Z0-9_]+)\s*:\s*(?:usize|u8|u16|u32|u64|i64)\s*=\s*([^;]+);", strip_comments(src(rel))):
+        name, expr = m.group(1), m.group(2).strip()
+        expr2 = re.sub(r"\b([A-Z][A-Z0-9_]+)\b", lambda mm: str(env[mm.group(1)]) if mm.group(1) in env else mm.group(0), expr)
+        try:
+            env[name] = num(expr2)
+        except Exception:
+            pass
+    return env
+
+
+def sockname(lit):
+    if lit not in SOCKNAMES:
+        errors.append(f"unknown socket type literal {lit!r}")
+        return ".other"
+    return "." + lit
+
+
+def proto():
+    gr = "core/src/protocol/zmtp/greeting.rs"
+    en = "core/src/protocol/zmtp/engine.rs"
+    env = const_env(gr, {})
+    env = const_env(en, env)
+    for n in ["GREETING_LENGTH", "MECHANISM_LENGTH", "SIGNATURE_LENGTH", "VERSION_MAJOR_OFFSET", "VERSION_MINOR_OFFSET",
+              "MECHANISM_OFFSET", "AS_SERVER_OFFSET", "PADDING_OFFSET", "PADDING_LENGTH", "REVISION_OFFSET",
+              "V2_SOCKET_TYPE_OFFSET", "V2_GREETING_LENGTH", "FLAT_THRESHOLD"]:
+        if n not in env:
+            errors.append(f"const {n} not found / not evaluable")
+        else:
+            emit_nat(n, env[n])
+    emit_nat("MAX_FRAMES_PER_MESSAGE", env.get("MAX_FRAMES_PER_MESSAGE", 0))
+    for n in ["GREETING_VERSION_MAJOR_BYTE", "GREETING_VERSION_MINOR_BYTE", "V2_REVISION", "V3_REVISION"]:
+        if n not in env:
+            errors.append(f"const {n} not found")
+        else:
+            emit_u8(n, env[n])
+    # signature
+    b = fn_body(gr, "encode_signature")
+    m = re.search(r"put_u8\((0x[0-9A-Fa-f]+)\);\s*buffer\.put_bytes\((\d+),\s*(\d+)\);\s*buffer\.put_u8\((0x[0-9A-Fa-f]+)\)", b)
+    if not m:
+        errors.append("encode_signature shape not found")
+    else:
+        emit_bytes("SIGNATURE", [num(m.group(1))] + [int(m.group(2))] * int(m.group(3)) + [num(m.group(4))])
+    # v3 tail shape: minor, mechanism, as_server, padding
+    b = fn_body(gr, "encode_v3_tail")
+    ok = re.search(r"put_u8\(GREETING_VERSION_MINOR_BYTE\);\s*buffer\.put_slice\(mechanism\);\s*buffer\.put_u8\(as_server as u8\);\s*buffer\.put_bytes\(0,\s*PADDING_LENGTH\)", b)
+    emit_nat("v3TailShapeOk", 1 if ok else 0)
+    if not ok:
+        errors.append("encode_v3_tail shape changed")
+    # signature check in process_greeting / decode
+    b = fn_body(en, "process_greeting")
+    m = re.search(r"sig\[0\]\s*!=\s*(0x[0-9A-Fa-f]+)\s*\|\|\s*sig\[SIGNATURE_LENGTH - 1\]\s*!=\s*(0x[0-9A-Fa-f]+)", b)
+    if not m:
+        errors.append("process_greeting signature check not found")
+    else:
+        emit_u8("sigFirst", num(m.group(1)))
+        emit_u8("sigLast", num(m.group(2)))
+    emit_nat("greetingV3IfRevGe", 1 if re.search(r"peer_revision\s*>=\s*V3_REVISION", b) else 0)
+    emit_nat("greetingV2IfRevEq", 1 if re.search(r"peer_revision\s*==\s*V2_REVISION", b) else 0)
+    # does the v2 branch refuse when a security mechanism is configured?
+    m = re.search(r"peer_revision\s*==\s*V2_REVISION\s*\{\s*if\s+([^{]+)\{", b)
+    cond = m.group(1).strip() if m else ""
+    emit_nat("v2RefusedWhenSecurity", 1 if "security_enabled" in cond else 0)
+    emit_nat("v2RefusedWhenDisallowed", 1 if "!self.config.allow_zmtp2" in cond else 0)
+    b = fn_body(gr, "decode")
+    m = re.search(r"data\[0\]\s*!=\s*(0x[0-9A-Fa-f]+)", b)
+    emit_u8("greetDecodeFirst", num(m.group(1)) if m else 0)
+    if not m:
+        errors.append("ZmtpGreeting::decode first-byte check not found")
+    m = re.search(r"match\s+as_server_byte\s*\{\s*(0x[0-9A-Fa-f]+)\s*=>\s*false,\s*(0x[0-9A-Fa-f]+)\s*=>\s*true", b)
+    if not m:
+        errors.append("as-server decode not found")
+    else:
+        emit_u8("asServerFalse", num(m.group(1)))
+        emit_u8("asServerTrue", num(m.group(2)))
+    # v2 socket type codes
+    codes = {}
+    for m in re.finditer(r"pub const V2_SOCKET_TYPE_([A-Z]+)\s*:\s*u8\s*=\s*(\d+);", strip_comments(src(gr))):
+        codes[m.group(1)] = int(m.group(2))
+    b = fn_body(gr, "socket_type_code")
+    pairs = re.findall(r'"([A-Z]+)"\s*=>\s*V2_SOCKET_TYPE_([A-Z]+)', b)
+    emit("socketTypeCode", "List (SockName × Nat)", "[" + ", ".join(f"({sockname(a)}, {codes.get(c, 999)})" for a, c in pairs) + "]")
+    b = fn_body(gr, "socket_type_name_from_code")
+    pairs = re.findall(r'V2_SOCKET_TYPE_([A-Z]+)\s*=>\s*"([A-Z]+)"', b)
+    emit("socketTypeNameFromCode", "List (Nat × SockName)", "[" + ", ".join(f"({codes.get(c, 999)}, {sockname(a)})" for c, a in pairs) + "]")
+    b = fn_body(en, "validate_v2_compatibility")
+    pairs = re.findall(r'\(\s*"([A-Z]+)"\s*,\s*V2_SOCKET_TYPE_([A-Z]+)\s*\)', b)
+    if not pairs:
+        errors.append("validate_v2_compatibility table not found")
+    emit("v2Compat", "List (SockName × Nat)", "[" + ", ".join(f"({sockname(a)}, {codes.get(c, 999)})" for a, c in pairs) + "]")
+    # inproc table
+    ip = "core/src/transport/inproc/handshake.rs"
+    b = fn_body(ip, "validate_socket_compatibility")
+    pairs = re.findall(r"\(SocketType::([A-Za-z]+),\s*SocketType::([A-Za-z]+)\)", b)
+    if not pairs:
+        errors.append("inproc compatibility table not found")
+    emit("inprocCompat", "List (SockName × SockName)", "[" + ", ".join(f"({sockname(a.upper())}, {sockname(c.upper())})" for a, c in pairs) + "]")
+    # does the v3 READY path validate the peer's Socket-Type?
+    b = fn_body(en, "process_ready")
+    emit_nat("v3ValidatesSocketType", 1 if re.search(r"validate_\w*compat", b) else 0)
+    # mechanisms
+    names = {}
+    for rel, key in (("core/src/security/null.rs", "null"), ("core/src/security/plain.rs", "plain"),
+                     ("core/src/security/curve/mechanism.rs", "curve"), ("core/src/security/noise_xx.rs", "noise")):
+        m = re.search(r'NAME_BYTES\s*:\s*&\'static \[u8; 20\]\s*=\s*b"((?:[^"\\]|\\.)*)"', src(rel))
+        if not m:
+            errors.append(f"{rel}: NAME_BYTES not found")
+            continue
+        names[key] = rust_bytes_literal(m.group(1))
+        emit_bytes("mechName_" + key, names[key])
+    sm = strip_comments(src("core/src/security/mod.rs"))
+    i = sm.find("const KNOWN_MECHANISMS")
+    tab = sm[i: sm.find("];", i)] if i >= 0 else ""
+    ents = re.findall(r"name_static_bytes:\s*(\w+)::NAME_BYTES.*?is_locally_enabled:\s*\|cfg\|\s*(\{[^}]*\}|[^,]+),", tab, re.S)
+    kinds = {"NullMechanism": ".null", "PlainMechanism": ".plain", "CurveMechanism": ".curve", "NoiseXxMechanism": ".noise"}
+    preds = {".null": "!cfg.security_enabled", ".plain": "cfg.use_plain", ".curve": "cfg.use_curve", ".noise": "cfg.use_noise_xx"}
+    order = []
+    for mech, pred in ents:
+        k = kinds.get(mech)
+        if k is None:
+            errors.append(f"unknown mechanism {mech} in KNOWN_MECHANISMS")
+            continue
+        pr = pred.strip().strip("{}").strip()
+        if pr != preds[k]:
+            errors.append(f"KNOWN_MECHANISMS: enable predicate of {mech} changed to `{pr}`")
+        order.append(k)
+    if len(order) != 4:
+        errors.append(f"KNOWN_MECHANISMS: expected 4 entries, found {len(order)}")
+    emit("knownMechanisms", "List MechKind", "[" + ", ".join(order) + "]")
+    b = fn_body(en, "local_mechanism_name_bytes")
+    prio = re.findall(r"config\.use_(plain|curve|noise_xx)", b)
+    emit("localMechPriority", "List MechKind", "[" + ", ".join({"plain": ".plain", "curve": ".curve", "noise_xx": ".noise"}[x] for x in prio) + "]")
+    # command literals
+    cm = "core/src/protocol/zmtp/command.rs"
+    b = fn_body(cm, "parse")
+    for nm, key in (("PING", "Ping"), ("PONG", "Pong"), ("READY", "Ready")):
+        m = re.search(r'starts_with\(b"((?:[^"\\]|\\.)*' + nm + r')"\)\s*&&\s*body\.len\(\)\s*>=\s*(\d+)', b)
+        if not m:
+            errors.append(f"command parse: {nm} literal not found")
+            continue
+        emit_bytes("cmd" + key, rust_bytes_literal(m.group(1)))
+        emit_nat("cmd" + key + "MinLen", int(m.group(2)))
+    m = re.search(r'starts_with\(b"((?:[^"\\]|\\.)*ERROR)"\)', b)
+    if not m:
+        errors.append("command parse: ERROR literal not found")
+    else:
+        emit_bytes("cmdError", rust_bytes_literal(m.group(1)))
+    m = re.search(r"&body\[(\d+)\s*\+\s*(\d+)\.\.\]", b)
+    emit_nat("pingContextOffset", int(m.group(1)) + int(m.group(2)) if m else 0)
+    if not m:
+        errors.append("PING context offset not found")
+    m = re.search(r"ZmtpCommand::Pong\(context\)", b)
+    mm = re.findall(r"copy_from_slice\(&body\[(\d+)\.\.\]\)", b)
+    emit_nat("pongContextOffset", int(mm[0]) if mm else 0)
+    m = re.search(r"parse_properties\(&body\[(\d+)\.\.\]\)", b)
+    emit_nat("readyPropsOffset", int(m.group(1)) if m else 0)
+    for fnname, key in (("create_ping", "mkPing"), ("create_pong", "mkPong")):
+        bb = fn_body(cm, fnname)
+        m = re.search(r'extend_from_slice\(b"((?:[^"\\]|\\.)*)"\)', bb)
+        if not m:
+            errors.append(f"{fnname}: literal not found")
+        else:
+            emit_bytes(key, rust_bytes_literal(m.group(1)))
+    m = re.search(r"ZMTP_CMD_READY_NAME\s*:\s*&\[u8\]\s*=\s*b\"([A-Z]+)\"", src(cm))
+    emit_bytes("readyName", rust_bytes_literal(m.group(1)) if m else [])
+    # PLAIN command names
+    pl = src("core/src/security/plain.rs")
+    for nm in ("HELLO", "WELCOME", "ERROR"):
+        m = re.search(r"const CMD_" + nm + r"\s*:\s*&'static \[u8\]\s*=\s*b\"([A-Z]+)\"", pl)
+        if not m:
+            errors.append(f"plain.rs: CMD_{nm} not found")
+        else:
+            emit_bytes("plain" + nm.capitalize(), rust_bytes_literal(m.group(1)))
+    # engine misc
+    b = fn_body(en, "process_ready")
+    cork = re.findall(r'"(PUSH|PULL|PUB|SUB|REQ|REP|DEALER|ROUTER|PAIR|XPUB|XSUB)"', b)
+    emit("corkTypes", "List SockName", "[" + ", ".join(sockname(c) for c in cork) + "]")
+    b = fn_body(en, "close")
+    m = re.search(r"Duration::from_millis\((\d+)\)", b)
+    emit_nat("closeCorkDelayMs", int(m.group(1)) if m else 0)
+    b = fn_body(en, "get_pong_deadline")
+    m = re.search(r"Duration::from_secs\((\d+)\)", b)
+    emit_nat("defaultPongTimeoutMs", int(m.group(1)) * 1000 if m else 0)
+    # does *any* inbound frame (not only PONG) clear waiting_for_pong?
+    b = fn_body(en, "process_data")
+    before_cmd = b[: b.find("if msg.is_command()")] if "if msg.is_command()" in b else ""
+    emit_nat("trafficClearsWaitingForPong", 1 if "waiting_for_pong = false" in before_cmd else 0)
+    emit_nat("dataFrameLimitChecked", 1 if re.search(r"partial_batch\.len\(\)\s*>=", b) else 0)
+
+
+GENERATORS = [("Consts", [wire], []), ("Proto", [proto], ["RzmqModel.Model.Names"])]
 
 
 def main():
     os.makedirs(OUT, exist_ok=True)
     changed = []
-    for modname, fns in GENERATORS:
+    for modname, fns, imports in GENERATORS:
         del lines[:]
         for f in fns:
             try:
@@ -258,8 +456,9 @@ def main():
                 errors.append(f"missing source file: {e.filename}")
             except Exception as e:  # noqa
                 errors.append(f"{f.__name__}: {type(e).__name__}: {e}")
-        text = ["-- GENERATED by tools/translate.py from /repo's current source. Do not edit.",
-                "namespace Rzmq.Gen", ""]
+        text = ["import " + i for i in imports] + [
+            "-- GENERATED by tools/translate.py from /repo's current source. Do not edit.",
+            "namespace Rzmq.Gen", ""]
         seen = set()
         for name, ty, val in lines:
             if name in seen:
